@@ -48,6 +48,7 @@ PROPS = {
     "C14": dict(level="proof", explanation="Delegation contracts with instrumented payloads whose eq/ne/partial_cmp/lt/le/gt/ge/cmp/hash/fmt return symbolic results and record their arguments: each handle operation calls the payload operation exactly once on (&*a, &*b) and returns its result unchanged (licence: same allocation => eq without consulting the value). Consistency obligations on small concrete domains with all bytes symbolic (bounded slices)."),
     "C15": dict(level="proof", explanation="Uninit-lifecycle contracts with identity-tracked payloads: dropping before assume_init after writing any prefix/subset destroys no element (fresh heap bytes are nondeterministic, so destroying an unwritten slot destroys an unissued id and fails), header destroyed exactly once, block freed once; assume_init* keep block/count/bytes; deprecated write/as_mut_slice on a shared handle never return and leave the payload untouched. Slice lengths bounded."),
     "C16": dict(level="proof", explanation="Clone contracts over the whole usize range of starting counts: n <= isize::MAX => returns with count n+1; n > isize::MAX => never returns, the only failed check is the abort site (std::process::abort; explicit panic in crate::abort for no_std), no handle produced. Every clone entry point, std and no_std builds.",
-                not_covered=["that the no_std double panic terminates the process (needs unwinding semantics)"]),
-    "C17": dict(level="proof", explanation="Serde delegation contracts: serializer with symbolic outcome and instrumented payload: Arc/UniqueArc::serialize call the payload's serialize exactly once on &*self with that serializer and return its result unchanged; deserialize with symbolic outcome: Ok(v) => one allocation, count 1, *a == v; Err(e) => Err(e) unchanged and no allocation made."),
+                not_covered=["that the no_std double panic terminates the process (needs unwinding semantics)", "environment faults between the overflow test and the abort (e.g. a diagnostic print that panics on a failing stderr): print macros are no-ops in the verifier's model"]),
+    "C17": dict(level="proof", explanation="Serde delegation contracts: serializer with symbolic outcome and instrumented payload: Arc/UniqueArc::serialize call the payload's serialize exactly once on &*self with that serializer and return its result unchanged; deserialize with symbolic outcome: Ok(v) => one allocation, count 1, *a == v; Err(e) => Err(e) unchanged and no allocation made. Both entry points (deserialize, deserialize_in_place) and both format classes (is_human_readable symbolic).",
+                not_covered=["state carried between calls in private statics / thread-locals (a per-call contract starts from the visible pre-state of one call)"]),
 }
